@@ -308,7 +308,7 @@ theorem dir_final (src : EP) (d : Dir) (h : DirInv src d) (hd : d.done = true) :
     simp [h1]
 
 theorem holdsTcp_of (A B : EP) (s : TcpSt) (inv : TcpInv A B s) (ret : s.returned = true) :
-    holdsTcp A B (tcpObs s) = true := by
+    holdsTcp A B (tcpObs A B s) = true := by
   have hd : s.ab.done = true ∧ s.ba.done = true := by simpa [TcpSt.returned] using ret
   have p1 : s.ab.delivered.isPrefixOf A.reads.flatten = true := List.isPrefixOf_iff_prefix.mpr inv.ab.pre
   have p2 : s.ba.delivered.isPrefixOf B.reads.flatten = true := List.isPrefixOf_iff_prefix.mpr inv.ba.pre
